@@ -666,7 +666,10 @@ class Interp:
                 return mk(x.z if c else z3.Not(x.z), "bool")
             return False
         if isinstance(a, VOpt) or isinstance(b, VOpt):
-            raise Unsupported("identity of optionals")
+            an, av = (a.isnone, a.val) if isinstance(a, VOpt) else (False, a)
+            bn, bv = (b.isnone, b.val) if isinstance(b, VOpt) else (False, b)
+            inner = self.truth(self.identical(av, bv)) if av is not None and bv is not None else False
+            return self.wrap_bool(self.or_(self.and_(an, bn), self.and_(self.and_(self.not_(an), self.not_(bn)), inner)))
         if isinstance(a, ExtRef) and isinstance(b, ExtRef):
             return a == b
         raise Unsupported(f"`is` on {a!r}, {b!r}")
